@@ -11,7 +11,7 @@ from hv.gen.intervals import device_intervals, interval_case, tie_classes
 from hv.model.intervals import span, union_measure
 
 ID = "C04"
-RULE = ("G-iv: 1-3 ranks, 1-14 device activities on 1-4 streams with anchor-based integer coordinates, written as "
+RULE = ("G-iv: 1-3 ranks (ids 0..n-1, or a subset of a larger job such as {1,2,3} / {3,0,7} in any order), 1-14 device activities on 1-4 streams with anchor-based integer coordinates, written as "
         ".json/.json.gz and loaded through TraceAnalysis; oracle = sweep-line union measures over the raw file "
         "entries. Non-trivial: some rank has >= 3 activities of >= 2 kernel types and at least one tie "
         "(touching, nested, identical, shared start/end or zero length). Distinct = distinct canonical case JSON.")
@@ -77,6 +77,8 @@ def check(case: Dict[str, Any]) -> CaseInfo:
         classes.append("multi_rank")
     if case.get("mp"):
         classes.append("mp_load")
+    if sorted(files) != list(range(len(files))):
+        classes.append("rank_ids_not_0..n-1")
     return CaseInfo(nontrivial=nontrivial, classes=classes)
 
 
@@ -87,5 +89,5 @@ def view(case):
 def campaigns(tier: str) -> List[Campaign]:
     return [Campaign("temporal", interval_case(), check, quick=320, thorough=24000, quick_shards=8,
                      required_classes={"touching": 0.05, "nested": 0.05, "zero_length": 0.05, "multi_stream": 0.2,
-                                       "multi_rank": 0.1, "nontrivial": 0.3},
+                                       "multi_rank": 0.1, "nontrivial": 0.3, "rank_ids_not_0..n-1": 0.15},
                      sample_view=view)]
